@@ -98,7 +98,7 @@ class Closure:
 
 class Frame:
     __slots__ = ('info', 'locals', 'enclosing', 'gen', 'first_arg', 'defcls', 'loop_counter', 'call_counter',
-                 'reduce_counter', 'reduce_site', 'loop_index')
+                 'reduce_counter', 'reduce_site', 'loop_index', 'map_counter', 'lib_site')
 
     def __init__(self, info, locals_, enclosing, first_arg=None, defcls=None):
         self.info = info
@@ -112,6 +112,15 @@ class Frame:
         self.reduce_counter = 0
         self.reduce_site = None
         self.loop_index = {}
+        self.map_counter = 0
+        self.lib_site = None
+
+
+class PartialObj:
+    """functools.partial of an interpreted callable / with symbolic arguments"""
+
+    def __init__(self, func, args, keywords):
+        self.func, self.args, self.keywords = func, tuple(args), dict(keywords)
 
 
 class SuperProxy:
@@ -415,7 +424,7 @@ class Interp:
             return models.call_sym_method(self, f.recv, f.name, list(args), kwargs)
         if isinstance(f, Closure):
             return self.run_function(f.info, f.enclosing, f.defaults, f.kwdefaults, args, kwargs, f.defcls_hint)
-        if isinstance(f, functools.partial):
+        if isinstance(f, (functools.partial, PartialObj)):
             kw = dict(f.keywords)
             kw.update(kwargs)
             return self.call(f.func, list(f.args) + list(args), kw)
@@ -432,6 +441,11 @@ class Interp:
             return self.construct(f, list(args), kwargs)
         if isinstance(f, (staticmethod,)):
             return self.call(f.__func__, args, kwargs)
+        # --- an instance of a repository class that defines __call__
+        if not isinstance(f, (types.BuiltinFunctionType, types.MethodDescriptorType, types.ModuleType)):
+            cm = _static_lookup(type(f), '__call__')
+            if cm is not None and isinstance(cm[0], types.FunctionType) and _is_repo_function(cm[0]):
+                return self.call_function_object(cm[0], [f] + list(args), kwargs, cm[1], bound_self=f)
         # --- builtins, method descriptors, other callables
         return self.call_native(f, list(args), kwargs)
 
